@@ -1,6 +1,7 @@
 package main
 
 import (
+	"encoding/json"
 	"fmt"
 	"go/ast"
 	"go/importer"
@@ -72,6 +73,13 @@ type dirPredicates struct {
 // runAgainstRepo compiles and runs a small program against the working tree of the repository
 // (same requirements and replacements as its go.mod) and returns what it prints.
 func runAgainstRepo(repo, prog, what string) string {
+	return runAgainstRepoOverlay(repo, prog, what, nil)
+}
+
+// runAgainstRepoOverlay: like runAgainstRepo, with extra source files added to packages of the
+// repository through the go tool's -overlay (repository-relative path -> content): nothing is written
+// into the repository; the extra files give access to unexported functions.
+func runAgainstRepoOverlay(repo, prog, what string, extra map[string]string) string {
 	dir, err := os.MkdirTemp("", "go2coq-eval-")
 	if err != nil {
 		panic(failure{err.Error()})
@@ -113,7 +121,26 @@ func runAgainstRepo(repo, prog, what string) string {
 	if err := os.WriteFile(filepath.Join(dir, "main.go"), []byte(prog), 0o644); err != nil {
 		panic(failure{err.Error()})
 	}
-	cmd := exec.Command("go", "run", ".")
+	args := []string{"run"}
+	if len(extra) > 0 {
+		repl := map[string]string{}
+		k := 0
+		for rel, content := range extra {
+			k++
+			tmp := filepath.Join(dir, fmt.Sprintf("overlay%d.go.txt", k))
+			if err := os.WriteFile(tmp, []byte(content), 0o644); err != nil {
+				panic(failure{err.Error()})
+			}
+			repl[filepath.Join(repo, rel)] = tmp
+		}
+		ov, _ := json.Marshal(map[string]interface{}{"Replace": repl})
+		ovp := filepath.Join(dir, "overlay.json")
+		if err := os.WriteFile(ovp, ov, 0o644); err != nil {
+			panic(failure{err.Error()})
+		}
+		args = append(args, "-overlay", ovp)
+	}
+	cmd := exec.Command("go", append(args, ".")...)
 	cmd.Dir = dir
 	cmd.Env = append(os.Environ(), "GOFLAGS=-mod=mod")
 	var stderr strings.Builder
@@ -123,6 +150,39 @@ func runAgainstRepo(repo, prog, what string) string {
 		panic(failure{what + " failed (does the tree compile?): " + err.Error() + "\n" + stderr.String()})
 	}
 	return string(out)
+}
+
+// byteClasses: IsNewLine, isWhitespace and the two switch-label helpers caseNewLine / caseWhitespace
+// are finite functions of a byte: they are EVALUATED for all 256 bytes (the unexported ones through an
+// overlay file in package scanner).  What the model relies on is checked on the results: a label
+// caseX(c) matches c exactly when the predicate holds, for every byte.
+func byteClasses(repo string) (nl, ws []int) {
+	wrap := "package scanner\n\nfunc Go2coqIsWhitespace(c byte) bool { return isWhitespace(c) }\n" +
+		"func Go2coqCaseNewLine(c byte) byte  { return caseNewLine(c) }\nfunc Go2coqCaseWhitespace(c byte) byte { return caseWhitespace(c) }\n"
+	prog := "package main\n\nimport (\n\t\"fmt\"\n\n\t\"github.com/jsightapi/jsight-api-core/scanner\"\n)\n\nfunc main() {\n" +
+		"\tfor i := 0; i < 256; i++ {\n\t\tc := byte(i)\n" +
+		"\t\tfmt.Println(i, scanner.IsNewLine(c), scanner.Go2coqIsWhitespace(c), scanner.Go2coqCaseNewLine(c) == c, scanner.Go2coqCaseWhitespace(c) == c)\n\t}\n}\n"
+	out := runAgainstRepoOverlay(repo, prog, "evaluating the byte classes of package scanner", map[string]string{"scanner/zz_go2coq_eval.go": wrap})
+	for _, l := range strings.Split(strings.TrimSpace(out), "\n") {
+		f := strings.Fields(l)
+		if len(f) != 5 {
+			panic(failure{"unexpected line from the byte-class evaluation: " + l})
+		}
+		i, _ := strconv.Atoi(f[0])
+		if f[1] != f[3] {
+			panic(failure{fmt.Sprintf("byte %d: IsNewLine = %s but the label caseNewLine(c) matches c = %s: the model reads such a label as IsNewLine(c)", i, f[1], f[3])})
+		}
+		if f[2] != f[4] {
+			panic(failure{fmt.Sprintf("byte %d: isWhitespace = %s but the label caseWhitespace(c) matches c = %s: the model reads such a label as isWhitespace(c)", i, f[2], f[4])})
+		}
+		if f[1] == "true" {
+			nl = append(nl, i)
+		}
+		if f[2] == "true" {
+			ws = append(ws, i)
+		}
+	}
+	return nl, ws
 }
 
 func evalDirectivePredicates(repo string, n int) dirPredicates {
